@@ -223,6 +223,7 @@ class FnCtx:
         self.input_vals = {}
         fr = Frame(self.fnkey, fn, self.cfg, None, 0)
         self.top = fr
+        st.assume(st.alloc0 >= 0)
         for p in (fn.get('params') or []):
             v = V.named_val(types, p['type'], 'in_' + p['name'])
             st.type_facts(v, known_old=True)
@@ -562,6 +563,8 @@ class FnCtx:
         for ins in blk['instrs']:
             if ins['op'] == 'Phi' and ins.get('comment') in ('rangeindex',):
                 env['$i'] = mathint(st.regs[ins['name']].term + 1)
+            if ins['op'] == 'Phi' and ins.get('comment') in ('rangeint.iter',):
+                env['$i'] = mathint(st.regs[ins['name']].term)
         return env
 
     def inv_formula(self, st, fr, ev, c, h):
